@@ -50,7 +50,8 @@ type Scenario struct {
 	wdAges            []int
 	memFaultNth       int
 	restartAfterClose bool
-	wdAt              int // step at which the clock jumps and an expired sweep races a live run (-1 never)
+	wdAt              int                 // step at which the clock jumps and an expired sweep races a live run (-1 never)
+	twinSpecs         []map[string]string // further own instances of the same DAG, started with these variable values
 	desc              string
 }
 
@@ -269,6 +270,44 @@ func genScenario(rng *Rng, kind string) *Scenario {
 		for a := range l {
 			l[a].ops = []actOp{{kind: 0, k: "k0", v: "sv"}}
 		}
+	case "twins":
+		// several own instances of the same DAG, started with different variable values, become
+		// 'scheduled' together: one watch round instantiates all of them.  Parameters carry
+		// instantiation-time placeholders {{x<n>}} (token convention of the vars family).
+		s.vars[varName(0)] = entity.DagVar{DefaultValue: "V0!"}
+		s.vars[varName(1)] = entity.DagVar{DefaultValue: "V1!"}
+		s.vars[varName(2)] = entity.DagVar{DefaultValue: "V2!"}
+		if s.spec == nil {
+			s.spec = map[string]string{}
+		}
+		s.spec[varName(0)] = "V10!"
+		for k := 1 + rng.Intn(2); k > 0; k-- {
+			sp := map[string]string{varName(0): fmt.Sprintf("V%d!", 20+k)}
+			if rng.Chance(1, 2) {
+				sp[varName(1)] = fmt.Sprintf("V%d!", 30+k)
+			}
+			s.twinSpecs = append(s.twinSpecs, sp)
+		}
+		for i := range s.tasks {
+			h := func() string { return "{{" + varName(rng.Intn(3)) + "}}" }
+			pm := map[string]interface{}{"p1": fmt.Sprintf("L%d.", i) + h() + "L9.", "p2": 5 + i}
+			if rng.Chance(2, 3) {
+				pm["p4"] = []interface{}{h(), "L3.", map[string]interface{}{"p5": h() + h()}}
+			}
+			if rng.Chance(1, 2) {
+				pm["p3"] = map[string]interface{}{"p7": h(), "p8": true}
+			}
+			if rng.Chance(1, 5) {
+				pm = nil // a task without parameters
+			}
+			s.tasks[i].params = pm
+		}
+		if rng.Chance(1, 3) {
+			s.crashAt = []int{1 + rng.Intn(12)}
+		}
+		if rng.Chance(1, 4) {
+			s.memFaultNth = 1 + rng.Intn(6)
+		}
 	case "leftbehind":
 		s.leftBehind = true
 	case "wdrace":
@@ -424,6 +463,10 @@ func runScenario(w *World, rng *Rng, s *Scenario, maxSteps int) *runResult {
 			_ = fi
 		}
 	}
+	for _, sp := range s.twinSpecs {
+		_, err := mod.GetCommander().RunDag("dag1", sp)
+		must(err)
+	}
 	must(mod.NewDefDispatcher().Do())
 	var foreignBefore string
 	if s.foreign {
@@ -461,6 +504,15 @@ func runScenario(w *World, rng *Rng, s *Scenario, maxSteps int) *runResult {
 		e.log(L(I(26), I(e.nm.Id(t.id)), checksSx(t.pre, e.nm), I(t.timeout), strIds(t.deps, e.nm)), "S task "+t.id)
 	}
 	e.log(L(I(33), I(30)), "S default timeout 30s")
+	if len(s.twinSpecs) > 0 {
+		for _, t := range s.tasks {
+			var pt interface{}
+			if len(t.params) > 0 {
+				pt = t.params
+			}
+			e.log(L(I(35), I(e.nm.Id(t.id)), treeSx(pt)), "S params "+t.id)
+		}
+	}
 	for _, d := range e.dump("dag_instance") {
 		vars := map[string]string{}
 		if v, ok := getField(d, "vars"); ok {
@@ -473,6 +525,9 @@ func runScenario(w *World, rng *Rng, s *Scenario, maxSteps int) *runResult {
 			}
 		}
 		e.log(L(I(27), I(e.nm.Id(docStr(d, "_id"))), kvSx(vars, e.nm)), "S vars "+docStr(d, "_id"))
+		if len(s.twinSpecs) > 0 {
+			e.log(L(I(37), I(e.nm.Id(docStr(d, "_id"))), tokVarsSx(vars)), "S token vars "+docStr(d, "_id"))
+		}
 	}
 	_ = ins
 	e.startIncarnation(s.execWorkers, s.parserWorkers, 30*time.Second)
